@@ -5,6 +5,7 @@ package c15
 import (
 	"fmt"
 	"github.com/platinummonkey/go-concurrency-limits/measurements"
+	"math"
 	mrand "math/rand"
 	"math/rand/v2"
 	"testing"
@@ -214,6 +215,32 @@ func TestCheck(t *testing.T) {
 					viol("probe-overdue", i, rt.J{"since_last_possible_probe": i - lastMaybe, "bound": spec.ProbeMult*(maxE+1) + 2})
 					return
 				}
+				// the countdown runs from the last reset, not from the last new minimum: a probe cannot fire before
+				// floor(0.5 x multiplier x estimate) samples after a reset, so a sample earlier than that which became the
+				// baseline was a plain new minimum; once the horizon counted from the last certain reset has passed, the
+				// baseline must stem from a sample no earlier than the earliest possible probe
+				cMin, cMax := math.MaxInt, 0
+				for k := lastCertain + 1; k <= i; k++ {
+					if k < 0 {
+						continue
+					}
+					if ests[k] < cMin {
+						cMin = ests[k]
+					}
+					if ests[k] > cMax {
+						cMax = ests[k]
+					}
+				}
+				if e := l.EstimatedLimit(); e > cMax {
+					cMax = e
+				}
+				earliest := lastCertain + int(0.5*float64(spec.ProbeMult)*float64(cMin))
+				if i-lastCertain >= spec.ProbeMult*(cMax+1)+2 && j < earliest {
+					viol("no-probe-within-the-horizon-of-the-last-reset", i, rt.J{"last_certain_reset_at": lastCertain, "baseline_source_index": j,
+						"earliest_possible_probe_at": earliest, "horizon": spec.ProbeMult*(cMax+1) + 2})
+					return
+				}
+				rt.Count("reset_horizon_checks", 1)
 			} else if spec.ProbeInt != limit.ProbeDisabled {
 				if i-j >= 2*spec.ProbeInt {
 					viol("baseline-stale", i, rt.J{"baseline": b, "source_index": j, "age": i - j, "bound": 2 * spec.ProbeInt})
